@@ -228,7 +228,37 @@ class Repo:
             tree = ast.parse(src, filename=full)
         except SyntaxError as e:
             raise AnalysisError("cannot parse %s: %s" % (rel, e))
+        self._normalise(rel, tree)
         self.modules[rel] = Module(rel, full, src, tree)
+
+    # functions whose rules read the *shape* of the code (writer / reader
+    # models): equivalent spellings are brought to one form first
+    NORMALISE = {
+        'biom/table.py': {'Table.to_hdf5', 'Table.from_hdf5',
+                          'general_parser', 'vlen_list_of_str_parser',
+                          'general_formatter', 'vlen_list_of_str_formatter'},
+    }
+
+    def _normalise(self, rel, tree):
+        want = self.NORMALISE.get(rel)
+        if not want:
+            return
+        from .normalize import normalize
+        AX = ('observation', 'sample')
+
+        def keep(node, rows):
+            # loops over the two axes are what the models specialise on
+            return any(isinstance(x, ast.Constant) and x.value in AX
+                       for r in rows for x in r)
+
+        def walk(body, prefix):
+            for i, n in enumerate(body):
+                if isinstance(n, ast.ClassDef):
+                    walk(n.body, prefix + n.name + '.')
+                elif isinstance(n, ast.FunctionDef) and \
+                        prefix + n.name in want:
+                    body[i] = normalize(n, tree, keep=keep)
+        walk(tree.body, '')
 
     def _load_pyx(self, rel, full):
         with open(full, encoding='utf8') as f:
